@@ -1,6 +1,4 @@
 SPECIFICATION TraceSpec
 CONSTANTS BlobLen = 131072
-          KnownFindings = TRUE
-INVARIANTS KnownReport
 POSTCONDITION TraceAccepted
 CHECK_DEADLOCK FALSE
